@@ -139,6 +139,20 @@ CHECKS["C12"] = dict(
          "the same data are not distinguished. `@tag` / `@list` decorated types are not in the catalogue yet.",
     technique="TLA+ statement of CIP-57 conformance and of the type's Data conversion; trace validation of validate / expect observations")
 
+CHECKS["C07"] = dict(
+    category="model_checking",
+    text="MC_Match.tla: for each scrutinee type TLC enumerates EVERY clause list of up to K clauses over a depth-2 pattern grammar "
+         "(constructors positional and labelled, tuples, pairs, lists with / without `..rest`, Int and Bool literals, variables, "
+         "discards) and decides from the semantic definition (Aiken.tla's Match over a complete value universe) the first unreachable "
+         "clause, exhaustiveness, and for every value the first matching clause with its bindings in order. Each clause list is given "
+         "to the real checker (verdict class must agree; every pattern it reports missing must denote an unmatched value) and, when "
+         "accepted, compiled and run on every value of the universe comparing clause index and bound values.",
+    design_ref="DESIGN.md section 6 C07",
+    note="The usefulness algorithm itself is not transcribed (the checker is compared with the semantic definition directly). `as` "
+         "patterns, alternatives and ByteArray literals are exercised by the C01 generator only. let / expect single-pattern forms are "
+         "covered by C01's generator.",
+    technique="TLC enumeration of pattern matrices with semantic verdicts; exhaustive replay into the real checker and compiled code")
+
 NOT_BUILT = "not built yet (machinery under construction, see DESIGN.md section 10)"
 
 
